@@ -15,12 +15,21 @@ import (
 func main() {
 	iters := flag.Int("iters", 300, "iterations per driver")
 	threads := flag.Int("threads", 8, "goroutines per driver")
+	only := flag.Int("driver", -1, "run only this driver (index); -1 runs all in this process")
+	list := flag.Bool("list", false, "print the number of drivers and exit")
 	flag.Parse()
+	if *list {
+		fmt.Println(len(c08drv.Drivers(*threads)))
+		return
+	}
 	total := 0
 	// several rounds per driver, each on freshly built schemas and freshly installed configuration, so that the
 	// very first (cold) concurrent use of every shared object happens many times, not once
 	const rounds = 10
-	for _, drv := range c08drv.Drivers(*threads) {
+	for di, drv := range c08drv.Drivers(*threads) {
+		if *only >= 0 && di != *only {
+			continue
+		}
 		for r := 0; r < rounds; r++ {
 			sh := drv.Setup()
 			var wg sync.WaitGroup
